@@ -92,11 +92,12 @@ Section Mon.
     filter (fun n => match n_kind (nd p n) with KWatch | KAlarm => negb (under_alarm n) | _ => false end) (seq 0 (length p)).
   (* a request is carried out exactly when the run log offered it *)
   Definition offered_ok (v : tview) : bool := list_eqb Bool.eqb (tv_accepted v) (tv_offered v).
-  (* a Watch (or top-level Alarm) that is cancelled and not activated is never activated afterwards and its body never
-     starts: a cancelled Alarm never fires, so it never re-arms either *)
+  (* a Watch (or top-level Alarm) that is cancelled is never activated afterwards, and no line of a cancelled Watch's body
+     starts any more, whether or not the Watch had been activated when the cancel was accepted (the code offers no cancel
+     after activation; a change that does is caught here): a cancelled Alarm never fires, so it never re-arms either *)
   Definition cancelled_watch_ok (u v : tview) : bool :=
-    forallb (fun n => negb (fst (cf u n) && negb (activated (vst u n)))
-                      || (negb (activated (vst v n))
+    forallb (fun n => negb (fst (cf u n))
+                      || ((activated (vst u n) || negb (activated (vst v n)))
                           (* body lines: for a Watch only -- a Watch / Alarm nested in an Alarm body keeps its own interrupt
                              from an earlier invocation of that body, which starts it independently (C05's known finding) *)
                           && (is_alarm n || forallb (fun c => negb (started (vst v c)) || started (vst u c)) (n_children (nd p n))))) watches.
